@@ -127,6 +127,7 @@ PRECEDENCE = [
     ('R-CLOSED.', ('nfa_to_dfa',), [('R-MODEL.M20', 1)]),
     ('R-BOUND.regexp', ('regexp_words_up_to_n',), [('R-MODEL.M24', 1)]),
     ('R-DISPATCH.a', ('generate',), [('R-MODEL.M26', 1)]),
+    ('R-DISPATCH.b', ('check_automaton_accepts_rejects',), [('R-FEEDBACK.K12', 1), ('R-FEEDBACK.K13', 8)]),
 ]
 
 
@@ -140,7 +141,7 @@ def _models_hold(rep, models):
 
 # structural rules whose VIOLATES is downgraded (round w showed a false VIOLATES of each on a correct refactoring); for the other
 # entries of PRECEDENCE only the instance floor is waived -- the self-test has mutants of R-SYM.or that M14 does not see
-DOWNGRADE = ('R-BUILD.checks', 'R-BUILD.guard', 'R-BUILD.inv', 'R-IO.a', 'R-EFFECT.a')
+DOWNGRADE = ('R-BUILD.checks', 'R-BUILD.guard', 'R-BUILD.inv', 'R-IO.a', 'R-EFFECT.a', 'R-DISPATCH.b')
 
 
 MODEL_RUNNERS = {'R-MODEL.M40': 'check_class_invariants', 'R-MODEL.M35': 'check_text_roundtrip', 'R-MODEL.M36': 'check_descriptions', 'R-MODEL.M39': 'check_simple_cfg_roundtrip'}
